@@ -54,7 +54,7 @@ def vec(x, y, z, *, B=0.5):
 def main():
     cfg = json.loads(sys.argv[1])
     rng = np.random.default_rng(12345)
-    dev = zoo.make_device(cfg["dev"], rng, max_edge_length=1.0, lam=cfg.get("lam", 2.0), smooth=cfg.get("smooth", 0))
+    dev = zoo.make_device(cfg["dev"], rng, max_edge_length=cfg.get("mel", 1.0), lam=cfg.get("lam", 2.0), smooth=cfg.get("smooth", 0))
     res = {"threads": os.environ.get("NUMBA_NUM_THREADS"), "mesh": {k: sha(v) for k, v in dict(
         sites=dev.mesh.sites, elements=dev.mesh.elements, areas=dev.mesh.areas, edges=dev.mesh.edge_mesh.edges,
         dual=dev.mesh.edge_mesh.dual_edge_lengths, lengths=dev.mesh.edge_mesh.edge_lengths, boundary=dev.mesh.edge_mesh.boundary_edge_indices).items()}}
@@ -91,6 +91,15 @@ def main():
     res["kernels"] = {"A_induced": sha(buf), "cdist": sha(distance.cdist(centers, sites)), "sqcdist": sha(distance.cdist(centers, sites, metric="sqeuclidean")),
                       "bs_z": sha(biot_savart_2d(centers[:, 0], centers[:, 1], 0.7, positions=sites, current_densities=J, areas=areas, vector=False).magnitude),
                       "bs_vec": sha(biot_savart_2d(centers[:, 0], centers[:, 1], 0.7, positions=sites, current_densities=J, areas=areas, vector=True).magnitude)}
+    # ... and on larger inputs (more sites / points than any block size or chunking threshold a kernel might use)
+    for n, m in ((700, 1300), (1024, 600), (2500, 900), (6000, 257)):
+        sites, centers, J, areas = r2.uniform(-3, 3, (n, 2)), r2.uniform(-3, 3, (m, 2)), r2.normal(size=(n, 2)), r2.uniform(0.01, 0.5, n)
+        buf = np.empty((m, 2))
+        get_A_induced_numba(J, areas, sites, centers, buf)
+        res["kernels"][f"A_induced_{n}x{m}"] = sha(buf)
+        res["kernels"][f"cdist_{n}x{m}"] = sha(distance.cdist(centers, sites))
+        res["kernels"][f"bs_z_{n}x{m}"] = sha(biot_savart_2d(centers[:, 0], centers[:, 1], 0.7, positions=sites, current_densities=J, areas=areas, vector=False).magnitude)
+        res["kernels"][f"bs_vec_{n}x{m}"] = sha(biot_savart_2d(centers[:, 0], centers[:, 1], 0.7, positions=sites, current_densities=J, areas=areas, vector=True).magnitude)
     print("RESULT " + json.dumps(res))
 
 
